@@ -41,7 +41,7 @@ def generate(rng, prop, tier):
             rng.shuffle(o)
         orders.append(o)
     ops = [{"op": "env", "hashseed": s, "order": orders[e], "faults": ["hashseed", "generation_order"] + (["decl_perm", "container"] if len(variants) > 1 else [])} for e, s in enumerate(seeds)]
-    return {"config": {"cse": rng.random() < 0.7}, "models": ms, "variants": variants, "ops": ops, "faults": []}
+    return {"config": {"cse": rng.random() < 0.7, "config_as_dict": rng.random() < 0.4}, "models": ms, "variants": variants, "ops": ops, "faults": []}
 
 
 def run_env(schedule, hashseed, keep_text=False, order=None):
@@ -49,7 +49,7 @@ def run_env(schedule, hashseed, keep_text=False, order=None):
     env["PYTHONHASHSEED"] = str(hashseed)
     if keep_text:
         env["FSIM_KEEP_TEXT"] = "1"
-    job = {"models": schedule["models"], "variants": schedule["variants"], "cse": schedule["config"]["cse"], "order": order}
+    job = {"models": schedule["models"], "variants": schedule["variants"], "cse": schedule["config"]["cse"], "order": order, "config_as_dict": schedule["config"].get("config_as_dict", False)}
     cp = subprocess.run([sys.executable, WORKER], input=json.dumps(job), capture_output=True, text=True, env=env, cwd=core.REPO, timeout=600)
     line = [l for l in cp.stdout.splitlines() if l.startswith("RESULT ")]
     if cp.returncode != 0 or not line:
